@@ -68,7 +68,9 @@ func (c12) Generate(seed uint64, tier string, index int) any {
 	for _, dst := range []string{"missing", "same", "diffsize", "diffcontent"} {
 		for _, d := range []struct {
 			sec, ns int64
-		}{{0, 0}, {1, 0}, {-1, 0}, {0, 1 + g.R.Int63n(999_999_998)}, {86400 * (1 + g.R.Int63n(1000)), 0}, {-86400 * (1 + g.R.Int63n(1000)), 5}} {
+		}{{0, 0}, {1, 0}, {-1, 0}, {0, 1 + g.R.Int63n(999_999_998)}, {86400 * (1 + g.R.Int63n(1000)), 0}, {-86400 * (1 + g.R.Int63n(1000)), 5},
+			// another second, but less than one second apart
+			{-1, 1 + g.R.Int63n(999_999_998)}, {-1, 999_999_999}, {1, 1 + g.R.Int63n(999_999_998)}} {
 			if dst == "missing" && (d.sec != 0 || d.ns != 0) {
 				continue
 			}
